@@ -166,7 +166,7 @@ def run(tier, seed):
                        "uninitialised reads are not detected (no MSan run: the prebuilt libgmp/libgomp are not instrumented)",
                        "C16 overloads are covered by the C16 check's own guard-page campaign, C13/C14 kernels take registers only"]
     st = run_gen()
-    standard_proof_phase(res, MODULE, "C18_", st, [], thorough=(tier == "thorough"))
+    standard_proof_phase(res, MODULE, "C18_", st, ["Scalar", "NttGen"], thorough=(tier == "thorough"))
     drv, err = build_driver()
     if err:
         res.broken.append(("model driver build", err))
